@@ -266,6 +266,7 @@ func runGraphOps(c *driver.Ctx, site, src string, kinds []string, opNames []stri
 					fmt.Sprintf("Go panic %v applying %s to node %d (%s)", res.p.Value, op.name, i, kinds[i]), map[string]any{"source": src, "op": op.name, "node": i})
 			} else if res.outcome == "timeout" {
 				c.Count("timeouts_excluded(wall-clock; not judged)", 1)
+				return // the abandoned goroutine still uses this graph: do not touch it again
 			}
 		}
 	}
